@@ -127,6 +127,13 @@ func (i *interpreter) harnessIntrinsic(fn *ssa.Function) intrinsic {
 			}
 			return goInt(fr, args[1])
 		}
+	case "verif_par":
+		return func(fr *frame, args []value) value {
+			fr.i.sched.par(fr, []value{args[0], args[1]})
+			return nil
+		}
+	case "verif_sched_points":
+		return func(fr *frame, args []value) value { return fr.i.sched.points }
 	case "verif_symbolic":
 		return func(fr *frame, args []value) value { return true }
 	case "verif_assume":
